@@ -44,3 +44,16 @@ func VerifTrimName(s string, max int) string { return trimName(s, max) }
 
 // VerifParsePrivate exposes parsePrivateField.
 func VerifParsePrivate(raw []byte) bool { return parsePrivateField(raw) }
+
+// VerifNewInfo builds an Info value the way NewInfo fills it (geometry fields only) without
+// going through bencode, so that the harness can also feed NewPieces values that NewInfo
+// would reject.  The unexported hash table is sized for numPieces so that PieceHash works.
+func VerifNewInfo(pieceLength uint32, numPieces uint32, length int64, files []File) *Info {
+	return &Info{
+		PieceLength: pieceLength,
+		NumPieces:   numPieces,
+		Length:      length,
+		Files:       files,
+		pieces:      make([]byte, 20*int(numPieces)),
+	}
+}
